@@ -95,10 +95,14 @@ def _object_value_node_from_value(
 
     field_nodes = []
     for field_def in input_type.fields:
-        if field_def.name in value:
-            field_value = ast_node_from_value(
-                value[field_def.name], field_def.type
-            )
+        # Coerced input objects are keyed by the configured Python names.
+        key = (
+            field_def.python_name
+            if field_def.python_name in value
+            else field_def.name
+        )
+        if key in value:
+            field_value = ast_node_from_value(value[key], field_def.type)
             field_nodes.append(
                 _ast.ObjectField(
                     name=_ast.Name(value=field_def.name), value=field_value
